@@ -20,7 +20,7 @@ RULE = ('Averager: 2-3 clients doing add(v)/get()/pop() (v small integers as flo
         'preemption inside an operation + distinct (count, seconds, pattern, callers) throttle cells')
 DISTINCT = ('averager_schedules', 'throttle_cells', 'throttle_schedules')
 REQUIRED = ('averager_schedules_checked', 'averager_pops', 'averager_free_runs', 'throttle_runs', 'throttle_calls_started',
-            'throttle_sleeps', 'throttle_concurrent_runs', 'throttle_runs_named_falsy', 'throttle_runs_named_derived')
+            'throttle_sleeps', 'throttle_concurrent_runs', 'throttle_runs_named_falsy', 'throttle_runs_named_derived', 'throttle_runs_on_jsondisk')
 ASSUMPTIONS = ('throttle is driven through its own time_func/sleep_func parameters; virtual sleep blocks the caller '
                'until virtual time reaches the wake-up', 'liveness is restated as bounded progress (virtual seconds and '
                'loop iterations)')
@@ -47,16 +47,19 @@ def averager_schedule(dc, sc, res, rng, label):
     clock = probe.set_clock(probe.VClock())
     topo = rng.choice(['shared', 'separate', 'fanout'])
     n = rng.randrange(2, 4)
+    json_disk = rng.random() < 0.25
+    dkw = {'disk': dc.JSONDisk} if json_disk else {}
+    res.count('averager_schedules_on_jsondisk' if json_disk else 'averager_schedules_on_disk')
     if topo == 'fanout':
-        base = dc.FanoutCache(d, shards=2, timeout=0)
+        base = dc.FanoutCache(d, shards=2, timeout=0, **dkw)
         caches = [base] * n
     else:
-        base = dc.Cache(d, timeout=0)
-        caches = [base if topo == 'shared' else dc.Cache(d, timeout=0) for _ in range(n)]
+        base = dc.Cache(d, timeout=0, **dkw)
+        caches = [base if topo == 'shared' else dc.Cache(d, timeout=0, **dkw) for _ in range(n)]
     sch = Sched(rng, clock, strategy=rng.choice(['random', 'preempt', 'random', 'ops']),
                 preempt_points={rng.randrange(0, 150) for _ in range(3)})
     rec = Recorder(sch)
-    ave_key = rng.choice(['latency', 'latency', '', 0, ('avg', 1)])       # the tally lives under any cache key
+    ave_key = rng.choice(['latency', 'latency', '', 0] + ([] if json_disk else [('avg', 1)]))   # the tally lives under any cache key
 
     def client(ci):
         def run():
@@ -85,7 +88,7 @@ def averager_schedule(dc, sc, res, rng, label):
             if o['kind'] == 'raise':
                 res.violation('Averager.%s raised %s (%s)' % (o['op'], o['result'], o.get('exc')), extra)
                 return
-        fresh = dc.Cache(d) if topo != 'fanout' else base
+        fresh = dc.Cache(d, **dkw) if topo != 'fanout' else base
         t = sch.tick + 5
         ops.append({'client': 99, 'op': 'get', 'args': (), 'kw': {}, 'call': t, 'ret': t + 1, 'kind': 'ok',
                     'result': dc.Averager(fresh, ave_key).get()})
@@ -203,8 +206,12 @@ def throttle_run(dc, sc, res, rng, label):
     rate = count / float(seconds)
     ncallers = rng.randrange(1, 4)
     pattern = gen.pick(rng, ['burst', 'uniform', 'random', 'idle-then-burst'])
-    cache = dc.Cache(d, timeout=0)
-    caches = [cache if rng.random() < 0.5 else dc.Cache(d, timeout=0) for _ in range(ncallers)]
+    # the bucket is an ordinary cache value: with JSONDisk it comes back as a list, not as the tuple that was stored
+    json_disk = rng.random() < 0.3
+    dkw = {'disk': dc.JSONDisk} if json_disk else {}
+    res.count('throttle_runs_on_jsondisk' if json_disk else 'throttle_runs_on_disk')
+    cache = dc.Cache(d, timeout=0, **dkw)
+    caches = [cache if rng.random() < 0.5 else dc.Cache(d, timeout=0, **dkw) for _ in range(ncallers)]
     sch = Sched(rng, clock, strategy=rng.choice(['random', 'preempt', 'random', 'ops']), max_steps=40000,
                 preempt_points={rng.randrange(0, 200) for _ in range(3)})
     starts = []          # virtual start times
@@ -238,7 +245,8 @@ def throttle_run(dc, sc, res, rng, label):
     # the decorator itself stores the initial tally.  One bucket for all callers: either every caller throttles its own
     # function (different qualified names) under one explicit name - any cache key is a legal name, falsy ones too - or
     # all callers share one function and the name is derived from it
-    bucket = gen.pick(rng, ['work', 'work', '', 0, b'', (), 0.0, False, None, None])
+    bucket = gen.pick(rng, ['work', 'work', '', 0, 0.0, False, None, None] if json_disk else
+                      ['work', 'work', '', 0, b'', (), 0.0, False, None, None])
     shared_body = make_body(-1)
     wrapped = []
     for ci in range(ncallers):
